@@ -7,7 +7,7 @@ const { canonValue, diff, diffClass, stable } = require('../lib/canon');
 const E = require('../lib/espace');
 
 const { SYM, SYM_X } = require('../lib/tsyms');
-const L_HOSTS = ['div', 'frag', 'Fragment', 'FragmentI', 'FragmentAlias2', 'FragmentStr', 'FragmentAfterDc', 'FragmentTwoImports', 'KeepAlive', 'iiconPat', 'iiconPat2'];
+const L_HOSTS = ['div', 'frag', 'Fragment', 'FragmentI', 'FragmentAlias2', 'FragmentStr', 'FragmentAfterDc', 'FragmentTwoImports', 'KeepAlive', 'iiconPat', 'iiconPat2', 'iiconPat3', 'IonCardPat'];
 const L_CHILDREN = Object.keys(E.CHILDREN);
 
 // earlier statements (C02 is about one element, but its lowering must not depend on what was lowered before it)
